@@ -24,13 +24,14 @@ from ..ref import rootint as ri
 
 ID = 'C09'
 LEVEL = 'exploration'
-DECIDING = ['tap:find_root', 'tap:quad', 'roots_judged', 'integrals_judged', 'plain_number_integrals_judged', 'repeated_object_cases', 'histories_judged', 'function_histories_judged']
+DECIDING = ['tap:find_root', 'tap:quad', 'roots_judged', 'integrals_judged', 'plain_number_integrals_judged', 'repeated_object_cases', 'histories_judged', 'function_histories_judged', 'degenerate_option_cases', 'scale_sweep_cases']
 RULE = ('cases: find_root on 9 families (x^n-d, exp(ax)-d, a log x - d, tanh(ax)-d, monotone cubic; vector-valued d: d0 e^x - d1, d0 x^2 - d1, '
         'd0 x + d1 - d2, x^3 + d0 x - d1) with d given as Obs / list / array, entries on the same chains (identical / nested / overlapping '
         'lists, replica subsets), different ensembles or covariance inputs; quad on polynomial / exponential (also half line) / '
         'trigonometric integrands (also with scipy weight=cos|sin) x every subset of {parameters (none, some, all), lower limit, upper limit} being observables x '
         '{same, different ensembles, covariance inputs}, reversed limits, scipy options; the same observable (same object or equal copy) in two slots (parameter-parameter, parameter-limit, '
-        'limit-limit; twice in a vector d); call histories with a twin input of equal names / lists / value; one integrand / residual function object used for 2-3 calls in a row '
+        'limit-limit; twice in a vector d); call histories with a twin input of equal names / lists / value; degenerate (falsy) option values epsabs=0 / epsrel=0 / wvar=0 / points=[] / full_output=0 together with integrals of size '
+        '1e-12..1e-6 and hard integrands; scale sweeps (integrand x 10^k, data x 10^k); one integrand / residual function object used for 2-3 calls in a row '
         'with other parameter values, data and limits; non-trivial: root with non-constant sensitivity '
         'compared in its fluctuations; integral with >= 1 observable limit or >= 2 observable parameters; '
         'distinct = digest of (family, constants, operand data)')
@@ -277,6 +278,10 @@ def case_root(ctx, rng, name, layout, repeat=None):
     pe = PE
     nd, res, inv, sens = ri.ROOTS[name]
     c, spec = root_problem(rng, name)
+    if ROOT_SCALE[0] is not None:
+        fac = {'power': [0], 'exp': [0], 'vec_quadratic': [0, 1], 'vec_ratio_exp': [0, 0], 'vec_linear': [0, 1, 1]}[name]
+        spec = [(m_ * ROOT_SCALE[0][f_], w_ * ROOT_SCALE[0][f_]) for (m_, w_), f_ in zip(spec, fac)]
+        ctx.cell('root_scale', name, *[int(round(math.log10(ROOT_SCALE[0][f_]))) for f_ in sorted(set(fac))])
     if 'root' in SHARED:
         c = dict(SHARED['root'][0])
     ops = Operands(rng, ctx.tier, layout)
@@ -346,7 +351,7 @@ def case_root(ctx, rng, name, layout, repeat=None):
     # residual at the central values
     scale_x = max(abs(x_exact), 1e-3)
     fx = (res(x_exact * (1 + 1e-6), dv, c) - res(x_exact * (1 - 1e-6), dv, c)) / (2e-6 * x_exact) if x_exact != 0 else 1.0
-    ctx.close(res(got.value, dv, c), 0.0, mech + ':residual-not-zero-at-central-values', what, rtol=0, atol=1e-7 * abs(fx) * scale_x + 1e-13)
+    ctx.close(res(got.value, dv, c), 0.0, mech + ':residual-not-zero-at-central-values', what, rtol=0, atol=1e-7 * abs(fx) * scale_x + 1e-13 * max([abs(v_) for v_ in dv] + [1e-300]))
     # dense propagation with the analytic sensitivities
     ref, scale, snaps, rmeans = reference(d, s_exact, lambda v: inv(list(v), c))
     # natural size of a sensitivity (root / datum) as floor for slots whose own sensitivity vanishes (e.g. -x/d0 at x = 0)
@@ -429,7 +434,24 @@ def lib_integrand(name, c, npar):
 SHARED = {}     # function objects shared by the calls of one history case: {'quad': (npar, constants, func), 'root': (constants, func)}
 
 
+KNOBS = {'amp': 1.0, 'freq': None, 'wvar': None, 'hard': False}     # set by the option / scale kinds for the duration of one case
+
+
+def amplitude_slots(name, npar):
+    return set(range(npar)) if name == 'poly' else {0, 2}
+
+
 def integral_problem(rng, name, half_line=False):
+    npar, p, a, b, c = _integral_problem(rng, name, half_line)
+    if KNOBS['freq'] is not None and name == 'trig':
+        p[1] = KNOBS['freq']
+    for k_ in amplitude_slots(name, npar):
+        if k_ < npar:
+            p[k_] *= KNOBS['amp']
+    return npar, p, a, b, c
+
+
+def _integral_problem(rng, name, half_line=False):
     sgn = float(rng.choice([-1, 1]))
     fixed = SHARED.get('quad')
     if name == 'poly':
@@ -499,11 +521,12 @@ def case_quad(ctx, rng, name, psel, a_obs, b_obs, layout, half_line=False, weigh
             b = a
     wvar = None
     if weight is not None:
-        wvar = float(rng.uniform(0.6, 3.0))
+        wvar = float(rng.uniform(0.6, 3.0)) if KNOBS['wvar'] is None else KNOBS['wvar']
         if a > b:
             a, b = b, a
     ops = Operands(rng, ctx.tier, layout)
-    pin = [ops.obs(v, max(abs(v), 0.3)) if m else v for v, m in zip(p, mask)]
+    amps = amplitude_slots(name, npar)
+    pin = [ops.obs(v, max(abs(v), 0.3 * (KNOBS['amp'] if k_ in amps else 1.0))) if m else v for k_, (v, m) in enumerate(zip(p, mask))]
     ain = ops.obs(a, 1.0) if a_obs else a
     bin_ = ops.obs(b, 1.0) if b_obs else b
     if repeat == 'pp':
@@ -716,12 +739,67 @@ def quadrature_contract(kw, infinite):
     Finite ranges of the analytic integrands used here: the 21-point Gauss-Kronrod rule converges to rounding, 1e-9 / 1e-8 of
     int|f| are kept.  Infinite ranges (QAGI): the routine is only accurate to what the options request, max(epsabs, epsrel |I|)
     (default 1.49e-8 each), and its own error estimate is not a bound (observed: reported 1.2e-12, actual 2.4e-9 = 2.2e-8 |I| for
-    p0 exp(-p1 x) on [a, inf)); the tolerance is 10 x the requested accuracy."""
-    if not infinite:
+    p0 exp(-p1 x) on [a, inf)); the tolerance is 10 x the requested accuracy.  The same contract is used for the deliberately
+    hard (high-frequency) integrands of the option rows on finite ranges."""
+    if not infinite and not KNOBS['hard']:
         return 1e-9, 1e-8, 0.0
     eabs = float(kw.get('epsabs', 1.49e-8))
     erel = float(kw.get('epsrel', 1.49e-8))
     return max(1e-9, 10 * erel), max(1e-8, 10 * erel), 10 * eabs
+
+
+OPTION_ROWS = {
+    # valid but degenerate (falsy) option values and tiny integrals: name -> (family, half_line, amplitude decades, frequency, forced options, weight)
+    'epsabs0_halfline': ('exp', True, (-12, -6), None, [{'epsabs': 0}, {'epsabs': 0.0, 'epsrel': 1e-9}, {'epsabs': 0, 'limit': 200}], None),
+    'epsabs0_trig': ('trig', False, (-12, -6), (5.0, 9.0), [{'epsabs': 0}, {'epsabs': 0, 'epsrel': 1e-10}], None),
+    'epsrel0_halfline': ('exp', True, (0, 0), None, [{'epsrel': 0, 'epsabs': 1e-12}, {'epsrel': 0.0, 'epsabs': 1e-11, 'limit': 200}], None),
+    'wvar0': ('poly', False, (0, 0), None, [{}], 'weight'),
+    'empty_or_false': ('exp', False, (-3, 3), None, [{'points': []}, {'full_output': 0}, {'full_output': False, 'epsabs': 0}], None),
+}
+
+
+def case_quad_option(ctx, rng, row):
+    fam, half, dec, freq, kws, weight = OPTION_ROWS[row]
+    try:
+        KNOBS['amp'] = float(10.0 ** rng.integers(dec[0], dec[1] + 1))
+        KNOBS['freq'] = None if freq is None else float(rng.uniform(*freq))
+        KNOBS['hard'] = freq is not None
+        kwf = dict(kws[int(rng.integers(0, len(kws)))])
+        w = None
+        if weight:
+            w = str(rng.choice(['cos', 'sin']))
+            KNOBS['wvar'] = 0 if rng.random() < 0.5 else 0.0
+        ctx.cell('quad_option_row', row, *sorted('%s=%r' % kv for kv in kwf.items()))
+        ctx.count('degenerate_option_cases')
+        psel = str(rng.choice(['none', 'some', 'all', 'all']))
+        a_obs, b_obs = bool(rng.integers(0, 2)), bool(rng.integers(0, 2))
+        case_quad(ctx, rng, fam, psel, a_obs, b_obs, str(rng.choice(['same', 'different', 'covariance'])), half_line=half, weight=w, force_kw=kwf)
+    finally:
+        KNOBS.update(amp=1.0, freq=None, wvar=None, hard=False)
+
+
+def case_quad_scale(ctx, rng, fam):
+    """the same kind of problem with the integrand multiplied by 10^k, k = -12..6 (all judgements are relative to the scale)"""
+    try:
+        KNOBS['amp'] = float(10.0 ** rng.integers(-12, 7))
+        ctx.cell('quad_scale', fam, int(round(math.log10(KNOBS['amp']))))
+        ctx.count('scale_sweep_cases')
+        case_quad(ctx, rng, fam, str(rng.choice(PSEL)), bool(rng.integers(0, 2)), bool(rng.integers(0, 2)), str(rng.choice(['same', 'different', 'covariance'])))
+    finally:
+        KNOBS.update(amp=1.0, freq=None, wvar=None, hard=False)
+
+
+ROOT_SCALE = [None]
+
+
+def case_root_scale(ctx, rng, name):
+    """data multiplied by 10^k (k = -8..8; independent factors where the family allows)"""
+    try:
+        ROOT_SCALE[0] = [float(10.0 ** rng.integers(-8, 9)) for _ in range(3)]
+        ctx.count('scale_sweep_cases')
+        case_root(ctx, rng, name, str(rng.choice(LAYOUTS)))
+    finally:
+        ROOT_SCALE[0] = None
 
 
 def abs_integral(f, p, a, b, c):
@@ -827,6 +905,13 @@ def plan(tier):
         for pos in ('first', 'last'):
             p.append(('quadspec:%s:%s' % (name, pos), 9 * m))
     p.append(('quadmany', 10 * m))
+    for row in OPTION_ROWS:
+        p.append(('quadopt:%s' % row, 24 * m))
+    for fam in ri.INTEGRANDS:
+        p.append(('quadscale:%s' % fam, 20 * m))
+    # (exp(a x) - d with d scaled over decades moves the root far from any O(1) guess: solver convergence, not error propagation)
+    for name in ('power', 'vec_quadratic', 'vec_ratio_exp', 'vec_linear'):
+        p.append(('rootscale:%s' % name, 14 * m))
     for opt in ('full_output', 'limit', 'eps', 'points'):
         p.append(('quadplain:%s' % opt, 14 * m))
     for name in ri.INTEGRANDS:
@@ -855,6 +940,12 @@ def run_case(ctx, kind, idx, rng):
         case_quad(ctx, rng, k[1], k[2], bool(int(k[3])), bool(int(k[4])), k[5])
     elif k[0] == 'quadspec':
         case_quad(ctx, rng, k[1], str(rng.choice(PSEL)), bool(rng.integers(0, 2)), bool(rng.integers(0, 2)), str(rng.choice(['same', 'different', 'covariance'])), spectator=k[2])
+    elif k[0] == 'quadopt':
+        case_quad_option(ctx, rng, k[1])
+    elif k[0] == 'quadscale':
+        case_quad_scale(ctx, rng, k[1])
+    elif k[0] == 'rootscale':
+        case_root_scale(ctx, rng, k[1])
     elif k[0] == 'quadmany':
         # more than ten parameters (numbered by position)
         try:
